@@ -825,7 +825,7 @@ func (m *CmdModel) execFor(x cmdFor) interface{} {
 func splitCmdName(text string) (string, string) {
 	text = trimLeftBlanks(text)
 	i := 0
-	for i < len(text) && text[i] != ' ' && text[i] != '\t' && text[i] != '.' && text[i] != '/' && text[i] != '"' && text[i] != '=' && text[i] != ',' && text[i] != ';' {
+	for i < len(text) && text[i] != ' ' && text[i] != '\t' && text[i] != '.' && text[i] != '/' && text[i] != '"' && text[i] != '=' && text[i] != ',' && text[i] != ';' && text[i] != '(' {
 		i++
 	}
 	return strings.ToLower(text[:i]), text[i:]
@@ -884,8 +884,10 @@ func (m *CmdModel) execSimple(raw string) interface{} {
 			return nil
 		}
 		fr.localDepth--
-		m.env = m.stack[len(m.stack)-1]
-		m.stack = m.stack[:len(m.stack)-1]
+		if len(m.stack) > 0 {
+			m.env = m.stack[len(m.stack)-1]
+			m.stack = m.stack[:len(m.stack)-1]
+		}
 		return nil
 	}
 	m.unmodelled("external or unknown command %q", name)
@@ -893,6 +895,11 @@ func (m *CmdModel) execSimple(raw string) interface{} {
 }
 
 func (m *CmdModel) execEcho(rest string) {
+	if strings.HasPrefix(rest, "(") {
+		// echo(text prints the text as it is: empty, blank-only, on/off included
+		m.out.WriteString(m.delayedExpand(rest[1:]) + "\n")
+		return
+	}
 	if strings.HasPrefix(rest, ".") && strings.TrimSpace(rest) == "." {
 		m.out.WriteString("\n")
 		return
